@@ -456,7 +456,7 @@ pub fn run(ctx: &Ctx) -> i32 {
         let opts = SweepOpts {
             threads: threads(),
             wall_limit_s: 120,
-            on_stuck: Box::new(|_, idx| eprintln!("MACHINERY ERROR: C16 stuck at {idx}")),
+            on_stuck: Box::new(|_, idx| { eprintln!("MACHINERY ERROR: C16 stuck at {idx}"); None }),
             fam_no: fi,
             stride,
             offset: if stride > 1 { ctx.seed % stride } else { 0 },
